@@ -69,7 +69,7 @@ pub fn run(id: &str, rest: &str) -> String {
     let mut c = s_enc::parse(t[4]);
     // single-threaded reference
     c.cfg.mt = false;
-    let src = VarSource { samples: c.samples.clone(), ch: c.ch, bps: c.bps, rate: c.rate, pos: 0, bytes_mode: false, hint: true, fail_at: readfail, reads: 0 };
+    let src = VarSource { samples: c.samples.clone(), ch: c.ch, bps: c.bps, rate: c.rate, pos: 0, bytes_mode: false, hint: true, fail_at: readfail, reads: 0, hint_extra: 0 };
     let cfg1 = c.cfg.to_encoder();
     use flacenc::error::Verify;
     let cfg1 = match cfg1.into_verified() { Ok(v) => v, Err(_) => return format!("{} cfg-err", id) };
@@ -78,7 +78,7 @@ pub fn run(id: &str, rest: &str) -> String {
     // multi-threaded run with hooks
     c.cfg.mt = true; c.cfg.workers = Some(w);
     let cfgm = c.cfg.to_encoder().into_verified().ok().unwrap();
-    let src = VarSource { samples: c.samples.clone(), ch: c.ch, bps: c.bps, rate: c.rate, pos: 0, bytes_mode: false, hint: true, fail_at: readfail, reads: 0 };
+    let src = VarSource { samples: c.samples.clone(), ch: c.ch, bps: c.bps, rate: c.rate, pos: 0, bytes_mode: false, hint: true, fail_at: readfail, reads: 0, hint_extra: 0 };
     LOG.lock().unwrap_or_else(|e| e.into_inner()).clear();
     PERTURB.store(pseed, Ordering::Relaxed);
     flacenc::verif::set_event_hook(Some(hook));
